@@ -110,6 +110,12 @@ pub struct Node<'c> {
     /// buffer addresses repeat within a run exactly as they do in firmware (and replay exactly)
     pub rxbuf: Vec<u8>,
     pub rx_count: u32,
+    /// C02 "nor any later output": a twin context that is given exactly the same calls as `ctx`
+    /// except deliveries whose PEC is wrong; every later output of the two must be identical
+    pub twin: MCTPSMBusContext<'c>,
+    pub twin_rx: Vec<u8>,
+    pub twin_resp: Vec<u8>,
+    pub twin_tx: Vec<u8>,
     /// reference model: None = unknown (after an out-of-domain accepted assignment)
     pub m_eid_req: Option<u8>,
     pub m_eid_resp: Option<u8>,
@@ -204,9 +210,17 @@ impl<'c, 's> Run<'c, 's> {
                 ctx.set_uuid(&u);
                 m_uuid = u;
             }
+            let mut twin = MCTPSMBusContext::new(nc.addr, &nc.types, &nc.vendors);
+            if let Some(u) = nc.boot_uuid {
+                twin.set_uuid(&u);
+            }
             nodes.push(Node {
                 cfg: nc,
                 ctx,
+                twin,
+                twin_rx: vec![nc.poison_resp ^ 0xFF; 2048],
+                twin_resp: vec![nc.poison_resp; nc.resp_cap],
+                twin_tx: vec![nc.poison_tx; nc.tx_cap],
                 rx: VecDeque::new(),
                 tx: vec![nc.poison_tx; nc.tx_cap],
                 resp: vec![nc.poison_resp; nc.resp_cap],
@@ -748,6 +762,26 @@ impl<'c, 's> Run<'c, 's> {
         (off, off + n)
     }
 
+    /// C02: the twin (which never saw a bad-PEC packet) must produce the same output
+    pub fn twin_compare(&mut self, ni: usize, what: &'static str, real_out: String, twin_out: String, input: &[u8]) {
+        self.eval(Prop::C02, "C02/later-output-equals-twin-without-bad-pec-inputs");
+        let panicked = |s: &str| s.contains("PANIC") || s.contains("Panic(");
+        if real_out != twin_out && !panicked(&real_out) && !panicked(&twin_out) {
+            self.viol(
+                Prop::C02,
+                format!("C02/effect/later-output/{}", what),
+                format!(
+                    "node{}: {} gives {} but a context with the same history minus the bad-PEC deliveries gives {} ; input {}",
+                    ni,
+                    what,
+                    real_out,
+                    twin_out,
+                    hex(&input[..input.len().min(64)])
+                ),
+            );
+        }
+    }
+
     /// get_length on a staged copy, no oracles
     pub fn get_length_staged(&mut self, ni: usize, b: &[u8]) -> Len {
         let (off, end) = self.stage(ni, b, false);
@@ -760,6 +794,12 @@ impl<'c, 's> Run<'c, 's> {
         let prefix = &prefix[..prefix.len().min(2000)];
         let (off, end) = self.stage(ni, prefix, false);
         let r = real::get_length(&self.nodes[ni].ctx, &self.nodes[ni].rxbuf[off..end]);
+        {
+            let node = &mut self.nodes[ni];
+            node.twin_rx[off..end].copy_from_slice(&prefix[..end - off]);
+            let rt = real::get_length(&node.twin, &node.twin_rx[off..end]);
+            self.twin_compare(ni, "get_length", format!("{:?}", r), format!("{:?}", rt), prefix);
+        }
         self.st.lib_calls += 1;
         self.probe_oracles(ni, prefix, r, head);
         if self.cfg.snoop {
